@@ -31,12 +31,14 @@ class _Env:
     side = None          # list to which purification constraints are appended (engine sets per path)
     defined = None       # list of definedness conditions (divisor != 0, radicand >= 0)
     fresh_counter = 0
+    serial = 0           # unique number of the current path context (memo keys; id() of a dead list may be reused)
     tiefree = False      # when set, sign(x) of a symbolic real assumes x != 0 (recorded as a path assumption)
     tie_assumptions = 0
 
 
 ENV = _Env()
 _PURE = {}    # memo of purification variables per path (same operands -> same variable)
+_DEFS = {}    # atom id of a purification / UF variable -> its definition (used by deriv())
 
 
 def fresh_real(prefix="t"):
@@ -44,10 +46,18 @@ def fresh_real(prefix="t"):
     return z3.Real(f"__{prefix}{ENV.fresh_counter}")
 
 
-def add_side(c):
+_DEF_CONS = {}   # name of a purification variable -> the side constraints that define it (for cone-of-influence slicing)
+_DEF_IDS = set()  # ids of the z3 constraints registered in _DEF_CONS
+
+
+def add_side(c, defines=None):
     if ENV.side is None:
         raise NotEncodable("purification outside a path context")
     ENV.side.append(c)
+    if defines is not None:
+        for v in (defines if isinstance(defines, (list, tuple)) else [defines]):
+            _DEF_CONS.setdefault(str(v), []).append(c)
+        _DEF_IDS.add(c.get_id())
 
 
 def add_defined(c):
@@ -527,16 +537,17 @@ class SqrtV:
 
     def purify(self):
         if self._pur is None:
-            key = ("sqrt", id(ENV.side), frozenset(self.p.t.items()))
+            key = ("sqrt", ENV.serial, frozenset(self.p.t.items()))
             if key in _PURE:
                 self._pur = _PURE[key]
                 return self._pur
             s = fresh_real("sqrt")
             ps = topoly(s)
-            add_side(s >= 0)
-            add_side(zbool(eq(pmul(ps, ps), self.p)))
+            add_side(s >= 0, defines=s)
+            add_side(zbool(eq(pmul(ps, ps), self.p)), defines=s)
             self._pur = ps
             _PURE[key] = ps
+            _DEFS[_single_atom(ps)] = ("sqrt", self.p)
         return self._pur
 
 
@@ -737,15 +748,16 @@ def div(a, b):
     if pb.is_const():
         return div(a, float(pb.const()))
     pa = topoly(a)
-    key = ("div", id(ENV.side), frozenset(pa.t.items()), frozenset(pb.t.items()))
+    key = ("div", ENV.serial, frozenset(pa.t.items()), frozenset(pb.t.items()))
     if key in _PURE:
         return _PURE[key]
     q = fresh_real("div")
     pq = topoly(q)
     nz = zbool(ne(b, 0))
     add_defined(nz)
-    add_side(z3.Implies(nz, zbool(eq(pmul(pq, pb), pa))))
+    add_side(z3.Implies(nz, zbool(eq(pmul(pq, pb), pa))), defines=q)
     _PURE[key] = pq
+    _DEFS[_single_atom(pq)] = ("div", pa, pb)
     if len(_PURE) > 20000:
         _PURE.clear()
     return pq
@@ -913,7 +925,9 @@ def where(c, a, b):
     ea, eb = poly_z3(pa), poly_z3(pb)
     if z3.is_int(ea) != z3.is_int(eb):
         ea, eb = poly_z3(pa, False), poly_z3(pb, False)
-    return topoly(z3.If(zbool(c), ea, eb))
+    r = topoly(z3.If(zbool(c), ea, eb))
+    _DEFS[_single_atom(r)] = ("ite", c, pa, pb)
+    return r
 
 
 def minimum(a, b):
@@ -951,6 +965,11 @@ def sign(a):
         return a
     if isinstance(a, Cases):
         return a.map(sign)
+    if isinstance(a, Cx):
+        # torch.sgn of a complex number: z/|z|, and 0 at z == 0
+        r = absv(a)
+        z = eq(r, 0)
+        return Cx(where(z, 0.0, div(a.re, r)), where(z, 0.0, div(a.im, r)))
     if ENV.tiefree:
         add_side(zbool(ne(a, 0)))
         ENV.tie_assumptions += 1
@@ -1031,7 +1050,7 @@ def round_(x):
     if p.is_int:
         return x
     # round-half-to-even of a symbolic real: an Int variable k with |x - k| <= 1/2 and even k at the two ties
-    key = ("round", id(ENV.side), frozenset(p.t.items()))
+    key = ("round", ENV.serial, frozenset(p.t.items()))
     if key in _PURE:
         return _PURE[key]
     ENV.fresh_counter += 1
@@ -1039,7 +1058,7 @@ def round_(x):
     xe = poly_z3(p, False)
     half = z3.RealVal("1/2")
     kr = z3.ToReal(k)
-    add_side(z3.And(kr - half <= xe, xe <= kr + half, z3.Implies(z3.Or(xe == kr - half, xe == kr + half), k % 2 == 0)))
+    add_side(z3.And(kr - half <= xe, xe <= kr + half, z3.Implies(z3.Or(xe == kr - half, xe == kr + half), k % 2 == 0)), defines=k)
     r = topoly(k)
     _PURE[key] = r
     return r
@@ -1118,3 +1137,97 @@ def evaluate(x, model):
                 return evaluate(v, model)
         raise NotEncodable("no case active under the model")
     raise NotEncodable(f"evaluate({type(x).__name__})")
+
+
+# ------------------------------------------------------------------------------------------------
+# symbolic differentiation of a scalar with respect to one real atom (used by the C19 gradient clause)
+# ------------------------------------------------------------------------------------------------
+def _single_atom(p):
+    (m, c), = p.t.items()
+    assert c == 1 and len(m) == 1 and m[0][1] == 1
+    return m[0][0]
+
+
+def atom_id(v):
+    """atom id of a scalar that is a plain variable"""
+    return _single_atom(topoly(v))
+
+
+def _is_zero(v):
+    return not _is_sym(v) and not isinstance(v, complex) and v == 0
+
+
+def deriv(v, xid, memo=None):
+    """d v / d atom[xid], where v was computed on the current path.  Purification variables are differentiated
+    implicitly from their definitions (u = a/b: du = (da - u db)/b;  u = sqrt(r): du = dr/(2u)); bits, integer
+    roundings and case guards are locally constant (the derivative is that of the smooth piece the path lies on)."""
+    if memo is None:
+        memo = {}
+    v = _dg(v)
+    if not _is_sym(v):
+        return 0.0
+    if isinstance(v, Cx):
+        return Cx(deriv(v.re, xid, memo), deriv(v.im, xid, memo))
+    if isinstance(v, Cases):
+        return v.map(lambda u: deriv(u, xid, memo))
+    if isinstance(v, SqrtV):
+        v = v.purify()
+    p = topoly(v)
+    total = 0.0
+    for m, c in p.t.items():
+        for i, (aid, pw) in enumerate(m):
+            da = _datom(aid, xid, memo)
+            if _is_zero(da):
+                continue
+            rest = list(m[:i]) + ([(aid, pw - 1)] if pw > 1 else []) + list(m[i + 1:])
+            total = add(total, mul(_simp(Poly({tuple(rest): c * pw})), da))
+    return total
+
+
+def _datom(aid, xid, memo):
+    if aid == xid:
+        return 1.0
+    if aid in memo:
+        return memo[aid]
+    a = _ATOM_BY_ID[aid]
+    d = _DEFS.get(aid)
+    if a.kind == "bit" or d is None or d[0] == "round":
+        r = 0.0
+    elif d[0] == "div":
+        pa, pb = d[1], d[2]
+        da, db = deriv(pa, xid, memo), deriv(pb, xid, memo)
+        q = Poly({((aid, 1),): Fraction(1)})
+        if _is_zero(da) and _is_zero(db):
+            r = 0.0
+        else:
+            r = div(sub(da, mul(q, db)), pb)
+    elif d[0] == "sqrt":
+        dp = deriv(d[1], xid, memo)
+        q = Poly({((aid, 1),): Fraction(1)})
+        r = 0.0 if _is_zero(dp) else div(dp, mul(2.0, q))
+    elif d[0] == "ite":
+        da, db = deriv(d[2], xid, memo), deriv(d[3], xid, memo)
+        r = 0.0 if _is_zero(da) and _is_zero(db) else where(d[1], da, db)
+    elif d[0] in ("cos", "sin"):
+        dp = deriv(d[1], xid, memo)
+        r = 0.0 if _is_zero(dp) else (neg(mul(d[2], dp)) if d[0] == "cos" else mul(d[2], dp))
+    elif d[0] == "uf":
+        name, parg = d[1], d[2]
+        dp = deriv(parg, xid, memo)
+        t = Poly({((aid, 1),): Fraction(1)})
+        if _is_zero(dp):
+            r = 0.0
+        elif name == "exp":
+            r = mul(t, dp)
+        elif name == "log":
+            r = div(dp, parg)
+        elif name == "tanh":
+            r = mul(sub(1.0, mul(t, t)), dp)
+        elif name == "sigmoid":
+            r = mul(mul(t, sub(1.0, t)), dp)
+        else:
+            raise NotEncodable(f"derivative of {name} of an input-dependent argument")
+    else:
+        raise NotEncodable(f"derivative through {d[0]}")
+    memo[aid] = r
+    return r
